@@ -671,11 +671,11 @@ class Gen:
         elif k == "epoch":
             # the newest stored instant is EXACTLY 1970-01-01T00:00:00Z (POSIX timestamp 0.0), then earlier points arrive: zero is a time like any other
             ops += [("insert", [self.point(-3 * SEC), self.point(-1 * SEC), self.point(0)], None, "multiple")] + obs
-            ops += [("insert", [self.point(-2 * SEC)], None), ("index_valid",), ("insert", [self.point(-40 * SEC)], None), ("index_valid",)]
+            ops += [("insert", [self.point(-2 * SEC)], None), ("index_valid",)]            # (no second late insert here: it would invalidate the index and hide what the first did)
             tq = lambda c, x: ("S", "time", [], ("cmp", c, ("t", x)))
             ops += [("count", tq(">=", 0), None), ("count", tq("==", 0), None), ("count", tq("<", 0), None), ("search", tq("<", -1 * SEC), None, True),
-                    ("get_timestamps", None), ("remove", tq("<", -2 * SEC - 500000), None)] + obs + [("count", tq("<=", 0), None), ("insert", [self.point(5 * SEC)], None), ("index_valid",),
-                    ("count", tq(">", -1), None)]
+                    ("get_timestamps", None), ("remove", tq(r.choice(["<", "<="]), r.choice([-1 * SEC - 500000, -2 * SEC, -2 * SEC + 1])), None)] + obs + [("count", tq("<=", 0), None),
+                    ("remove", tq(">=", r.choice([0, -1, 1])), None)] + obs + [("insert", [self.point(5 * SEC)], None), ("index_valid",), ("count", tq(">", -1), None)]
         elif k == "sparse_write":
             # a dozen or more points; a removal / an update that selects a FEW of them, early and late ones (positions below and above 8, in an order a
             # small set of ints does not iterate in): everything between must stay
@@ -695,12 +695,12 @@ class Gen:
             ops += [("count", ("S", "tags", [("k", "hit")], ("exists",)), None), ("len",), ("count", q, None)]
         elif k == "future_untimed":
             # a point dated a fraction of a second in the FUTURE (a forecast), then a point without a time: it receives the time of its insertion
-            p1, p2, p3 = self.point(), self.point(), self.point()
-            p1["time"], p1["rel_now"] = None, r.choice([0.4, 0.7, 30.0, 86400.0])
-            p2["time"] = None
-            p3["time"] = None
+            p1, p2, p3, p4, p5 = (self.point() for _ in range(5))
+            p1["time"], p1["rel_now"] = None, r.choice([0.4, 0.6, 0.8])
+            p4["time"], p4["rel_now"] = None, r.choice([30.0, 86400.0])
+            p2["time"] = p3["time"] = p5["time"] = None
             ops += [("insert", [self.point()], None), ("insert", [p1], None), ("index_valid",), ("insert", [p2], None), ("index_valid",), ("iter",),
-                    ("insert", [p3], r.choice([None, "m1"])), ("get_timestamps", None)]
+                    ("insert", [p3], r.choice([None, "m1"])), ("insert", [p4], None), ("insert", [p5], None), ("get_timestamps", None)]
         elif k == "shared_maps":
             # a batch of points built from ONE tags mapping and ONE fields mapping (the harness hands equal mappings of a batch over as one
             # object): updates of a subset, of all, unsets, and an update that fails part-way must treat every point as having its own
